@@ -1,7 +1,7 @@
 //! Programs = finite histories of public API calls; run on the implementation, printed as Gallina.
 use crate::term::*;
 use exmex::prelude::*;
-use exmex::ExResult;
+use exmex::{Differentiate, ExResult, MissingOpMode};
 
 #[derive(Clone, Debug)]
 pub enum Prog {
@@ -10,6 +10,10 @@ pub enum Prog {
     Bin(String, Box<Prog>, Box<Prog>), Un(String, Box<Prog>),
     Subs(Box<Prog>, Vec<(String, Prog)>),
     ReFlat(Box<Prog>), ReDeep(Box<Prog>),
+    /// DeepEx + - * / pow (0..4)
+    Arith(usize, Box<Prog>, Box<Prog>), Neg(Box<Prog>),
+    /// partial_iter_relaxed(idxs, mode): mode 0 = Error, 1 = PerOperand, 2 = None
+    Partial(Vec<usize>, usize, Box<Prog>),
 }
 #[derive(Clone, Debug, PartialEq)]
 pub enum Query { Vars, Eval(usize), Relaxed(usize), EvalVec(usize), Unparse, BinReprs, UnReprs, OpReprs }
@@ -40,6 +44,11 @@ pub fn run(p: &Prog) -> ExResult<Expr> {
             }
         }
         Prog::Un(name, p) => match run(p)? { Expr::F(f) => Expr::F(f.operate_unary(leak(name))?), Expr::D(d) => Expr::D(d.operate_unary(leak(name))?) },
+        Prog::Arith(op, p, q) => { let a = run(p)?.to_deep()?; let b = run(q)?.to_deep()?;
+            Expr::D(match op { 0 => (a + b)?, 1 => (a - b)?, 2 => (a * b)?, 3 => (a / b)?, _ => a.pow(b)? }) }
+        Prog::Neg(p) => Expr::D((-(run(p)?.to_deep()?))?),
+        Prog::Partial(idxs, mode, p) => { let m = match mode { 0 => MissingOpMode::Error, 1 => MissingOpMode::PerOperand, _ => MissingOpMode::None };
+            match run(p)? { Expr::F(f) => Expr::F(f.partial_iter_relaxed(idxs.iter().copied(), m)?), Expr::D(d) => Expr::D(d.partial_iter_relaxed(idxs.iter().copied(), m)?) } }
         Prog::ReFlat(p) => { let t = match run(p)? { Expr::F(f) => f.unparse().to_string(), Expr::D(d) => d.unparse().to_string() }; Expr::F(FE::parse(leak(&t))?) }
         Prog::ReDeep(p) => { let t = match run(p)? { Expr::F(f) => f.unparse().to_string(), Expr::D(d) => d.unparse().to_string() }; Expr::D(DE::parse(leak(&t))?) }
         Prog::Subs(p, m) => {
@@ -115,6 +124,9 @@ pub fn g_prog(p: &Prog) -> String {
         Prog::Compile(p) => format!("(PCompile {})", g_prog(p)),
         Prog::Bin(n, p, q) => format!("(PBin {} {} {})", g_str(n), g_prog(p), g_prog(q)),
         Prog::Un(n, p) => format!("(PUn {} {})", g_str(n), g_prog(p)),
+        Prog::Arith(op, p, q) => format!("(PArith {op} {} {})", g_prog(p), g_prog(q)),
+        Prog::Neg(p) => format!("(PNeg {})", g_prog(p)),
+        Prog::Partial(idxs, mode, p) => format!("(PPartial [{}]%nat {mode} {})", idxs.iter().map(|i| i.to_string()).collect::<Vec<_>>().join(";"), g_prog(p)),
         Prog::ReFlat(p) => format!("(PReFlat {})", g_prog(p)),
         Prog::ReDeep(p) => format!("(PReDeep {})", g_prog(p)),
         Prog::Subs(p, m) => format!("(PSubs {} [{}])", g_prog(p), m.iter().map(|(x, q)| format!("({}, {})", g_str(x), g_prog(q))).collect::<Vec<_>>().join("; ")),
@@ -146,6 +158,9 @@ pub fn pretty_prog(p: &Prog) -> String {
         Prog::Compile(p) => format!("{}.compile()", pretty_prog(p)),
         Prog::Bin(n, p, q) => format!("{}.operate_binary({}, {n:?})", pretty_prog(p), pretty_prog(q)),
         Prog::Un(n, p) => format!("{}.operate_unary({n:?})", pretty_prog(p)),
+        Prog::Arith(op, p, q) => format!("({} {} {})", pretty_prog(p), ["+", "-", "*", "/", "pow"][(*op).min(4)], pretty_prog(q)),
+        Prog::Neg(p) => format!("-({})", pretty_prog(p)),
+        Prog::Partial(idxs, mode, p) => format!("{}.partial_iter_relaxed({idxs:?}, mode {mode})", pretty_prog(p)),
         Prog::ReFlat(p) => format!("FlatEx::parse({}.unparse())", pretty_prog(p)),
         Prog::ReDeep(p) => format!("DeepEx::parse({}.unparse())", pretty_prog(p)),
         Prog::Subs(p, m) => format!("{}.subs({{{}}})", pretty_prog(p), m.iter().map(|(x, q)| format!("{x} -> {}", pretty_prog(q))).collect::<Vec<_>>().join(", ")),
